@@ -29,3 +29,151 @@ def from_console(proto, typ, payload, pid=1, ext=None):
     if ext is None:
         ext = typ == 0x1F
     return frame(proto, 0xB0, 0x90 if ext else 0x80, pid, typ, payload)
+
+
+# ---------------------------------------------------------------------------------------------
+# payload builders of the simulated console, written from the vendor documents (refs/) and, for
+# the timer messages, from the repository's docstrings.  Inputs are plain dicts; every field has
+# a default so generators only state what they vary.
+
+def _name(b, width):
+    b = bytes(b)[:width]
+    return b + b"\0" * (width - len(b))
+
+
+def _temp11(raw):
+    """11-bit temperature code in bits 15..5 of two bytes (AT4)."""
+    return [(raw >> 3) & 0xFF, (raw << 5) & 0xFF]
+
+
+def at4_group_status(groups):
+    out = []
+    for g in groups:
+        t = g.get("temp_raw")
+        b5, b6 = (0xFF, 0x00) if t is None else _temp11(t)
+        out += [(g.get("power", 0) << 6) | (g["n"] & 0x3F),
+                (g.get("method", 0) << 7) | (g.get("pct", 0) & 0x7F),
+                (g.get("batt_low", 0) << 7) | (g.get("turbo", 0) << 6) | (g.get("sp", 0) & 0x3F),
+                (g.get("sensor", 0) << 7), b5, b6 | (g.get("spill", 0) << 4)]
+    return out
+
+
+def at4_ac_status(acs):
+    out = []
+    for a in acs:
+        t = a.get("temp_raw", 730)
+        b5, b6 = (0xFF, 0x00) if t is None else _temp11(t)
+        err = a.get("err", 0)
+        out += [(a.get("power", 0) << 6) | (a["n"] & 0x3F), (a.get("mode", 0) << 4) | a.get("fan", 0),
+                (a.get("spill", 0) << 7) | (a.get("timer", 0) << 6) | (a.get("sp", 24) & 0x3F), 0,
+                b5, b6, err >> 8, err & 0xFF]
+    return out
+
+
+def ext(sub, data=()):
+    return [0xFF, sub] + list(data)
+
+
+def at4_ability(acs):
+    out = []
+    for a in acs:
+        body = list(_name(a.get("name", b"AC"), 16)) + [a.get("start", 0), a.get("count", 0),
+                                                         a.get("modes", 0x1F), a.get("fans", 0x7F),
+                                                         a.get("min", 16), a.get("max", 30)]
+        if a.get("groups") is not None:
+            bm = 0
+            for g in a["groups"]:
+                bm |= 1 << g
+            body += [bm & 0xFF, bm >> 8]
+        out += [a["n"], len(body)] + body
+    return ext(0x11, out)
+
+
+def at4_group_names(names):
+    out = []
+    for n, name in names:
+        out += [n] + list(_name(name, 8))
+    return ext(0x12, out)
+
+
+def version(update, text):
+    text = bytes(text)
+    return ext(0x30, [1 if update else 0, len(text)] + list(text))
+
+
+def error_info(ac, text):
+    text = bytes(text)
+    return ext(0x10, [ac, len(text)] + list(text))
+
+
+def _timer(t):
+    """t = None (disabled) or (hour, minute)."""
+    if t is None:
+        return [0, 0]
+    return [0x80 | (t[0] & 0x1F), t[1] & 0x3F]
+
+
+def at4_timer_status(timers):
+    """timers: list of (on, off) for ACs 0..n-1 (the console always reports four)."""
+    out = []
+    for on, off in timers:
+        out += _timer(on) + _timer(off) + [0, 0, 0, 0]
+    return out
+
+
+def c0(sub, records, rlen=None, normal=()):
+    records = [list(r) for r in records]
+    if rlen is None:
+        rlen = len(records[0]) if records else 0
+    out = [sub, 0, len(normal) >> 8, len(normal) & 255, rlen >> 8, rlen & 255, len(records) >> 8, len(records) & 255]
+    out += list(normal)
+    for r in records:
+        out += (r + [0] * rlen)[:rlen]
+    return out
+
+
+def at5_zone_status(zones, rlen=8):
+    recs = []
+    for z in zones:
+        t = z.get("temp_raw", 0x7FF)
+        recs.append([(z.get("power", 0) << 6) | (z["n"] & 0x3F), (z.get("method", 0) << 7) | (z.get("pct", 0) & 0x7F),
+                     z.get("sp", 0xFF), z.get("sensor", 0) << 7, (t >> 8) & 0x07, t & 0xFF,
+                     (z.get("spill", 0) << 1) | z.get("batt_low", 0), 0])
+    return c0(0x21, recs, rlen)
+
+
+def at5_ac_status(acs, rlen=10):
+    recs = []
+    for a in acs:
+        t = a.get("temp_raw", 730)
+        err = a.get("err", 0)
+        recs.append([(a.get("power", 0) << 4) | (a["n"] & 0x0F), (a.get("mode", 0) << 4) | a.get("fan", 0),
+                     a.get("sp", 120),
+                     (a.get("turbo", 0) << 3) | (a.get("bypass", 0) << 2) | (a.get("spill", 0) << 1) | a.get("timer", 0),
+                     (t >> 8) & 0x07, t & 0xFF, err >> 8, err & 0xFF, 0, 0])
+    return c0(0x23, recs, rlen)
+
+
+def at5_timer_status(timers):
+    """timers: list of (ac, on, off)."""
+    return c0(0x33, [[ac] + _timer(on) + _timer(off) + [0, 0, 0, 0] for ac, on, off in timers], 9)
+
+
+def at5_ability(acs):
+    out = []
+    for a in acs:
+        body = list(_name(a.get("name", b"AC"), 16)) + [a.get("start", 0), a.get("count", 0),
+                                                         a.get("modes", 0x1F), a.get("fans", 0xFF),
+                                                         a.get("min_cool", 16), a.get("max_cool", 30),
+                                                         a.get("min_heat", 17), a.get("max_heat", 31)]
+        body += [0] * a.get("extra", 0)
+        out += [a["n"], len(body)] + body
+    return ext(0x11, out)
+
+
+def at5_zone_names(names):
+    out = []
+    for n, name in names:
+        name = bytes(name)
+        out += [n, len(name)] + list(name)
+    return ext(0x13, out)
